@@ -389,7 +389,7 @@ def c07_run(p):
 
 
 # ---------------------------------------------------------------------------------------------------------------------
-DATA_PLANS = [None, [1], [65536], [100, 65536, 7], [8, 8, 8], [4000]]
+DATA_PLANS = [None, [1], [65536], [100, 65536, 7], [8, 8, 8], [4000], [10, 0, 20]]
 WRTE_PLANS = [None, [1], [3], [8], [7, 1, 4096], [4096], [12, 5]]
 
 
@@ -492,7 +492,8 @@ def c09_params(budget):
 
 
 LISTINGS = [[], [(b'a', 0, 0, 0)], [(b'.', 0o40755, 4096, 1), (b'..', 0o40755, 4096, 2), (b'...', 1, 2, 3), (b' ', 4, 5, 6)], [(b'file one', 0o100644, 2 ** 32 - 1, 7), (b'\xff\x00\xfe', 2 ** 32 - 1, 0, 2 ** 31), (b'x' * 255, 1, 2, 3)],
-            [(b'n%d' % i, i, i * 3, i * 5) for i in range(60)]]
+            [(b'n%d' % i, i, i * 3, i * 5) for i in range(60)],
+            [(b'entry%04d' % i, i, i * 3, i * 5) for i in range(1100)]]
 STATS = [(0, 0, 0), (2 ** 32 - 1, 2 ** 32 - 1, 2 ** 32 - 1), (0o100644, 12, 1600000000), (1, 2, 3), (3, 2, 1)]
 
 
@@ -535,9 +536,59 @@ def c10_params(budget):
                     for wp in (0, 3, 4):
                         yield {'twin': twin, 'op': 'push', 'at': at, 'ri': ri, 'delay': delay, 'wp': wp}
         yield {'twin': twin, 'op': 'push', 'at': 'badstatus', 'ri': 0, 'delay': False, 'wp': 0}
+        # the device answers the host's CLSE with remote id 0 (accepted by the library's zero fallback): the FAIL must still surface
+        for at in (0, 1):
+            yield {'twin': twin, 'op': 'pull-clse0', 'at': at, 'ri': 0, 'wp': 0}
+        # the FAIL record trickles in several packets, each within read_timeout_s but together longer: still the failure, not a timeout
+        for op in ('pull', 'push'):
+            yield {'twin': twin, 'op': op + '-trickle', 'at': 0, 'ri': 0, 'wp': 0}
+
+
+def c10_special(p):
+    out = []
+    reason = REASONS[p['ri']]
+    if p['op'] == 'pull-clse0':
+        dev = adbd.Adbd(maxdata=1 << 20, fs={b'/f': b'q' * 20000}, fail={'recv': (p['at'], reason)}, data_plan=[6000])
+        dev.clse_zero_remote = True
+        h = mk(p['twin'], dev)
+        r = outcome(lambda: h.call('pull', '/f', BytesIO()))
+        if r[:2] != ('exc', 'AdbCommandFailureException'):
+            out.append(fail(p, 'a sync FAIL during pull must raise AdbCommandFailureException (device closes with remote id 0)', 'AdbCommandFailureException', r))
+        h.finish()
+        return out
+    # trickle: header at once, the reason in two WRTEs 0.15 s apart, read_timeout_s = 0.25
+    op = p['op'].split('-')[0]
+    if op == 'pull':
+        dev = adbd.Adbd(maxdata=4096, fs={b'/f': b'q' * 100}, fail={'recv': (0, reason)}, wrte_plan=[8, 10, 4096])
+    else:
+        dev = adbd.Adbd(maxdata=4096, fail={'send': ('done', reason, False)}, wrte_plan=[8, 10, 4096])
+    h = Host(dev, p['twin'], stall='empty')
+    h.call('connect', transport_timeout_s=0.05, read_timeout_s=0.25)
+    orig = dev.send
+    state = {'n': 0}
+
+    def send(cmd, a0, a1, data=b''):
+        if cmd == b'WRTE' and (data[:4] == b'FAIL' or state['n']):
+            state['n'] += 1
+            if state['n'] > 1:
+                dev.timers.append((h.clock.now + 0.15, lambda: orig(cmd, a0, a1, data)))
+                return
+        orig(cmd, a0, a1, data)
+    dev.send = send
+    want = 'AdbCommandFailureException' if op == 'pull' else 'PushFailedError'
+    if op == 'pull':
+        r = outcome(lambda: h.call('pull', '/f', BytesIO(), transport_timeout_s=0.05, read_timeout_s=0.25))
+    else:
+        r = outcome(lambda: h.call('push', BytesIO(b'x' * 100), '/f', transport_timeout_s=0.05, read_timeout_s=0.25))
+    if r[:2] != ('exc', want):
+        out.append(fail(p, 'a failure the device reported must not be replaced by a timeout when every single wait was within read_timeout_s', want, r))
+    h.finish()
+    return out
 
 
 def c10_run(p):
+    if p['op'] in ('pull-clse0', 'pull-trickle', 'push-trickle'):
+        return c10_special(p)
     out = []
     reason = REASONS[p['ri']]
     if p['op'] == 'pull':
